@@ -197,6 +197,23 @@ class PyIter:
                 raise StopIteration
             p[1] -= 1
             return p[0].step(it, fr, t, depth)
+        if k == "step_by":
+            if not p[2]:
+                for _ in range(p[1] - 1):
+                    p[0].step(it, fr, t, depth)
+            p[2] = False
+            return p[0].step(it, fr, t, depth)
+        if k == "filter":
+            while True:
+                x = p[0].step(it, fr, t, depth)
+                holder = Frame({"path": "<item>", "locals": []}, {})
+                holder.locals[0] = x
+                keep = it.apply_callable(p[1], [Ref(holder, 0, [])], fr, t, depth)
+                c = keep.const() if isinstance(keep, AI) else None
+                if c is None:
+                    raise Undecided("filter predicate")
+                if c:
+                    return x
         if k == "once":
             if p[1]:
                 raise StopIteration
@@ -1132,6 +1149,17 @@ class Interp:
                 return src
             if last == "take" and isinstance(args[1], AI) and args[1].const() is not None:
                 return PyIter("take", [src, args[1].const()])
+            if last == "skip" and isinstance(args[1], AI) and args[1].const() is not None:
+                for _ in range(args[1].const()):
+                    try:
+                        src.step(self, fr, t, depth)
+                    except StopIteration:
+                        break
+                return src
+            if last == "step_by" and isinstance(args[1], AI) and args[1].const() is not None and args[1].const() >= 1:
+                return PyIter("step_by", [src, args[1].const(), True])
+            if last == "filter":
+                return PyIter("filter", [src, args[1]])
             if last == "by_ref":
                 return args[0]
             if last == "for_each":
